@@ -1,5 +1,7 @@
 package main
 
+import "os"
+
 func init() {
 	register(&propDef{ID: "C20", Title: "Floating-IP configuration and IP ranges decode, validate and round-trip",
 		Explanation: "Decides: (R1) the order/merge test of fipCheck compares IPToInt values without a 32-bit x±c operand (cannot wrap at 255.255.255.255), both ends of every range are tested against the pool subnet, and every 'bad' edge reaches only error returns; (R2) a pool decodes successfully only through fipCheck, an unparsable range / missing gateway / missing subnet rejects the whole pool, ParseIPRange rejects first > last; (R3) a failed decode or failed ConfigurePool leaves the remembered configuration untouched (C05.R5). Does not decide size/enumeration/membership agreement nor encode∘decode = id (value laws over all inputs).",
@@ -7,6 +9,9 @@ func init() {
 		Run: func(c *Ctx) {
 			c.Rule("C20.R1", "range checks cannot wrap and reject on every bad edge; successful decode only through fipCheck", 9)
 			ruleConfigDecode(c, "C20.R1")
+			c.Rule("C20.R4", "range strings are parsed whole; the enumerator skips a range only when it is inverted", 2)
+			ruleRangeStringWhole(c, "C20.R4")
+			ruleWalkSkipsOnlyInverted(c, "C20.R4")
 			c.Rule("C20.R3", "a rejected configuration changes nothing at the caller", 2)
 			ruleReloadAllOrNothing(c, "C20.R3")
 		}})
@@ -31,6 +36,14 @@ func init() {
 			rulePolicyDerivation(c, "C18.R5")
 			c.Rule("C18.R8", "policy rule slices are index-aligned with the spec (no out-of-range in the pod event path)", 4)
 			rulePolicyRuleIndexAlignment(c, "C18.R8")
+			c.Rule("C18.R9", "stepped indexes are compared with the length of the slice they index", 1)
+			ruleSteppedIndexChecked(c, "C18.R9", false)
+			if os.Getenv("GALAXY_EXPLORE") != "" {
+				exploreDecodeTargets(c)
+				exploreDecodedFields(c)
+			}
+			c.Rule("C18.R10", "a failed release event is retried a bounded number of times", 1)
+			ruleRetryBounded(c, "C18.R10")
 			c.Rule("C18.R7", "pointers decoded from the floating-IP configuration are nil-tested before use", 3)
 			ruleDecodedPointers(c, "C18.R7")
 			c.Rule("C18.R6", "paging parameters clamped to a constant range", 2)
